@@ -284,7 +284,83 @@ def r5_only_via_wrapper(c, facts):
     c.floor(R, 'named memoised productions', n, 1)
 
 
+def r6_memo_monotone(c, facts):
+    """an entry, once stored, stays available until the parse ends, and every result is stored while caching is on"""
+    R = c.rule('C12.R6', 'MEMO-MONOTONE: the memo table only grows: one insert site, no removal, and storing depends on nothing but the bypass switch')
+    READ = {'get', 'len', 'contains_key', 'is_empty', 'iter', 'keys', 'values', 'fmt', 'clone', 'cloned'}
+    n = 0
+    for fn in sorted(facts.fns.values(), key=lambda f: f.qname):
+        if not fn.mir or fn.crate not in ('oal_model', 'oal_syntax'):
+            continue
+        for b, blk in fn.blocks():
+            for st in blk['stmts']:
+                if st['s'] != 'assign':
+                    continue
+                rv = st['rv']
+                pl = rv.get('place') if rv['r'] in ('ref', 'rawptr') else None
+                if pl is None and rv['r'] == 'use' and 'l' in rv['op']:
+                    pl = rv['op']
+                if not pl:
+                    continue
+                owners = [x.get('owner', '') for x in pl['proj'] if x['p'] == 'field' and x.get('name') == 'cache']
+                if not any(o.endswith('grammar::Context') for o in owners):
+                    continue
+                if st['place']['proj'] == [] and rv['r'] == 'use':
+                    pass
+                locs, calls = MF.forward_uses(fn, st['place']['l'])
+                for d, t, bi, ai in calls:
+                    if ai != 0:
+                        continue
+                    nm = P.strip(d).split('::')[-1]
+                    n += 1
+                    inst = {'fn': fn.qname, 'method': nm, 'line': t['ln']}
+                    if nm in READ:
+                        c.ok(R, inst)
+                    elif nm == 'insert' and fn.qname == 'oal_model::grammar::Context::cache':
+                        c.ok(R, inst)
+                    else:
+                        c.bad(R, 'memo-table-mutated:%s:%s' % (fn.qname, nm), '%s calls %s on the memo table: entries stored earlier in the parse disappear (or appear from elsewhere), the work bound of memoisation is lost' % (fn.qname, nm), **inst)
+            # whole-field assignment outside the constructor
+            for st in blk['stmts']:
+                if st['s'] == 'assign' and any(x['p'] == 'field' and x.get('name') == 'cache' and x.get('owner', '').endswith('grammar::Context') for x in st['place']['proj']):
+                    n += 1
+                    c.bad(R, 'memo-table-replaced:%s' % fn.qname, '%s assigns the memo table of an existing context' % fn.qname, fn=fn.qname)
+    c.floor(R, 'uses of Context.cache', n, 3)
+    # storing and hitting depend on the bypass switch only
+    for q, callee in (('oal_model::grammar::Context::cache', 'HashMap::insert'), ('oal_model::grammar::Context::lookup', 'HashMap::get')):
+        fn = c.anchor(R, q)
+        idx = MF.defs_index(fn)
+        sites = P.call_blocks(fn, callee)
+        if not sites:
+            continue
+        sb = sites[0][0]
+        bad = []
+        for b, blk in fn.blocks():
+            t = blk['term']
+            if t['t'] != 'switch' or 'l' not in t['discr']:
+                continue
+            succ = fn.succ(b)
+            reach = [sb in fn.reachable_from(x) or x == sb for x in succ]
+            if any(reach) and not all(reach):
+                sl = MF.slice_back(fn, t['discr']['l'], idx)
+                fields = set()
+                for l in sl['locals']:
+                    for kind, bi, d in idx.get(l, []):
+                        if kind == 'assign':
+                            o = d['rv'].get('op') or d['rv'].get('place')
+                            if o and 'proj' in o:
+                                fields |= set(MF.field_path(o))
+                calls = {P.strip(x).split('::')[-1] for x, _, _ in sl['calls']}
+                if calls or not fields <= {'no_cache'}:
+                    bad.append((t.get('ln'), sorted(calls), sorted(fields)))
+        if bad:
+            c.bad(R, '%s:conditional-on-more-than-the-switch' % q.split('::')[-1], '%s reaches %s under a condition on %s: some results are not memoised although caching is on (work is no longer linear beyond that condition)' % (q, callee, bad), fn=q)
+        else:
+            c.ok(R, {'fn': q, callee: 'conditional on no_cache only'})
+
+
 def run(c, facts):
+    c.run(r6_memo_monotone, facts)
     c.run(r5_only_via_wrapper, facts)
     c.run(r1_tag_injective, facts)
     c.run(r2_same_key, facts)
